@@ -250,6 +250,34 @@ def run(ctx, model_ok):
                                 'why': 'listing / trace decoding does not use the caller-supplied table (absent id decoded or named, or a '
                                        'decodable name not decoded under the id the table gives it): a record whose name has no decoder '
                                        'changed the text of the enclosing call'})
+    # a composite decoder decodes the records nested in its window through the supplied table as well: a nested record whose id
+    # the table does not list (or lists under a name without a decoder) contributes nothing to the enclosing trace
+    vf = uni.by_name['MACH_vmfault'][0]
+    vreqs, vinfo = [], []
+    for real in (0x1320008, 0x1320010, 0x1320014):
+        for nested_name in (None, 'SOMETHING_ELSE', 'RealFaultAddressPurgeable'):
+            table = {vf: 'MACH_vmfault', rd: 'BSC_read'}
+            if nested_name:
+                table[real] = nested_name
+            core = [[1, vf, 1, [0, 0x7000, 0, 0]], [1, vf, 2, [0, 0, 0, 1]]]
+            full = [core[0], [1, real, 0, [0x7000, (3 << 8) | 1, 0, 4242]], core[1]]
+            for hist in (core, full):
+                recs = [D.record(jj + 1, ws, t, c | q) for jj, (t, c, q, ws) in enumerate(hist)]
+                vreqs.append({'file': D.build_v2([(1, 1, b'p')], 0, recs).hex(), 'table': sorted(table.items()), 'cfg': {'color': False}, 'calls': ['traces']})
+            vinfo.append((real, nested_name, table))
+    vres = vlib.run_impl('run_api.py', {'cases': vreqs})['results']
+    ctx.evaluations += len(vreqs)
+    for j, (real, nested_name, table) in enumerate(vinfo):
+        ta = [it[4] for it in vres[2 * j][0]['items'] if it[6] == vf]
+        tb = [it[4] for it in vres[2 * j + 1][0]['items'] if it[6] == vf]
+        if vres[2 * j][0]['err'] or vres[2 * j + 1][0]['err'] or ta != tb or len(ta) != 1:
+            ctx.failing.append({'input': {'table': sorted(table.items()), 'api': True, 'nested_record_id': real,
+                                          'its_name_in_the_table': nested_name,
+                                          'history': 'page fault START, a record of that id, page fault END (result 0)'},
+                                'expected': ta, 'actual': {'texts': tb, 'err': vres[2 * j + 1][0]['err']},
+                                'why': 'listing / trace decoding does not use the caller-supplied table (absent id decoded or named, or a '
+                                       'decodable name not decoded under the id the table gives it): a nested record the table does not '
+                                       'make decodable changed the enclosing trace'})
     ctx.rule = ('(a) texts of 0..12 lines: ids with/without 0x/0X, mixed case, leading zeros, separators from all inline '
                 'whitespace, names incl. non-ASCII, trailing comments, every line terminator incl. CRLF, last line with/without '
                 'terminator; every 4th text malformed (missing name, bad id, empty/blank line); (b) custom tables (drop / '
